@@ -425,8 +425,9 @@ func (rw *fileRewriter) run(isMain bool) {
 				if repl != "" && len(x.Args) == 1 {
 					rw.seam("mapfunc", x.Pos(), pkg+"."+name)
 					handled[sel] = true
+					site := rw.siteLit(x.Pos()) // before the call expression loses its position
 					x.Fun = rw.simSel(repl)
-					x.Args = []ast.Expr{rw.siteLit(x.Pos()), x.Args[0]}
+					x.Args = []ast.Expr{site, x.Args[0]}
 				}
 			}
 		case *ast.SelectorExpr:
